@@ -8,6 +8,7 @@
 //	concat:string         the body concatenates onto a string
 //	floatsum:<type>       the body accumulates a floating-point sum (addition is not associative)
 //	pick:return           the body returns a value derived from the iteration variables
+//	delete                the body deletes map entries (what is deleted may depend on earlier deletions)
 //
 // and, for append sinks, what happens to the slice afterwards in the same function, in source
 // order (`flows`): sort calls, other callees that receive it, `return`.  `sorted` = a sort call
@@ -542,6 +543,18 @@ func genMapRanges(e *Env) (string, error) {
 							}
 						case *ast.ExprStmt:
 							if call, ok := x.X.(*ast.CallExpr); ok {
+								if id, ok := call.Fun.(*ast.Ident); ok && id.Name == "delete" && len(call.Args) == 2 {
+									if _, isB := p.info.Uses[id].(*types.Builtin); isB {
+										// deleting from a map inside a map walk: whether an element is deleted may depend on
+										// what earlier iterations deleted, i.e. on the iteration order
+										s := base
+										s.sink = "delete"
+										if src(p.fset, call.Args[0]) == src(p.fset, rs.X) {
+											s.sink = "delete (from the ranged map)"
+										}
+										emit(s)
+									}
+								}
 								if n := calleeName(p.info, call); isOutputCallee(n) {
 									s := base
 									s.sink = "write:" + n
